@@ -36,8 +36,21 @@ impl Future for GateFut {
         else { log(format!("wait:{}", self.0.id)); *self.0.waker.lock().unwrap() = Some(cx.waker().clone()); Poll::Pending }
     }
 }
+/// a self-waking pending point (`yield_now`): the first poll wakes the task *during that poll* and returns Pending; every
+/// later poll is ready.  (Gate ids whose last three digits are 800..999.)
+pub struct YieldFut(Arc<Gate>);
+static LAST_YIELD: AtomicUsize = AtomicUsize::new(0);
+impl Future for YieldFut {
+    type Output = ();
+    fn poll(self: Pin<&mut Self>, cx: &mut Context<'_>) -> Poll<()> {
+        if self.0.open.load(Ordering::SeqCst) { Poll::Ready(()) }
+        else { log(format!("wait:{}", self.0.id)); self.0.open.store(true, Ordering::SeqCst);
+               LAST_YIELD.store(self.0.id as usize, Ordering::SeqCst); cx.waker().wake_by_ref(); Poll::Pending }
+    }
+}
 /// a pending point: ready once gate `id` has been opened (id 0: always ready)
-pub fn gate(id: u32) -> BoxFuture<'static, ()> { if id == 0 { ready(()).boxed() } else { GateFut(the_gate(id)).boxed() } }
+pub fn gate(id: u32) -> BoxFuture<'static, ()> {
+    if id == 0 { ready(()).boxed() } else if id % 1000 >= 800 { YieldFut(the_gate(id)).boxed() } else { GateFut(the_gate(id)).boxed() } }
 pub fn open_gate(id: u32) { let g = the_gate(id); g.open.store(true, Ordering::SeqCst); log(format!("open:{}", id));
     let w = g.waker.lock().unwrap().take();
     if let Some(w) = w { w.wake(); } }
@@ -65,9 +78,14 @@ pub fn drive<T: Show, F: Future<Output = T>>(fut: F, schedule: &[&[u32]]) -> Str
     let mut i = 0;
     loop {
         log("poll".to_string());
+        LAST_YIELD.store(0, Ordering::SeqCst);
+        let woken_before = cw.0.load(Ordering::SeqCst);
         match fut.as_mut().poll(&mut cx) {
             Poll::Ready(v) => { log("ready".to_string()); return format!("ok {}", v.show()); }
             Poll::Pending => {
+                // a pending point that woke its task during this very poll must have woken the macro's future
+                let y = LAST_YIELD.load(Ordering::SeqCst);
+                if y != 0 && cw.0.load(Ordering::SeqCst) == woken_before { log(format!("lostwake:{}", y)); }
                 if i >= schedule.len() { log("stuck".to_string()); return "STUCK".to_string(); }
                 for g in schedule[i] {
                     let before = cw.0.load(Ordering::SeqCst);
@@ -231,12 +249,18 @@ def gen_async(rng, pid, kind, **kw):
     # gates on some of the operators that are futures themselves
     gid = 0
     gates = []
+    yields = []
     for br in p.branches:
         for op in br["ops"]:
             if op.mode in ("init", "andThen", "then", "orElse") and not (op.mode == "init" and op.block) and rng.chance(1, 2):
                 gid += 1
-                op.agate = 500 + gid
-                gates.append(op.agate)
+                if kind[5] == "0" and rng.chance(1, 3):
+                    # a self-waking pending point (woken during its own poll); opened by nobody
+                    op.agate = 800 + gid
+                    yields.append(op.agate)
+                else:
+                    op.agate = 500 + gid
+                    gates.append(op.agate)
     # the future an async `then` / `and_then` handler returns may wait for a gate of its own
     if p.handler and p.handler["kind"] in ("then", "and_then") and rng.chance(1, 2):
         gid += 1
@@ -253,8 +277,30 @@ def gen_async(rng, pid, kind, **kw):
             sched.append([])
     sched.append([])
     sched.append([])
+    # every self-waking point costs one more poll
+    sched += [[] for _ in yields]
     p.schedule = sched
+    p.yields = yields
     return p
+
+
+def effective_schedule(p, rust_line):
+    """A self-waking pending point first met in poll k is ready from poll k+1 on: for the poll-level model it is a gate opened
+    in batch k.  The poll in which each one was met is read from the real run's log."""
+    sched = [list(b) for b in p.schedule]
+    f = rust_line.split("\t")
+    k = -1
+    for (t, tn, tid) in k2.parse_rust_events(f[1] if len(f) > 1 else "", p.base):
+        if t == "poll":
+            k += 1
+        m = re.match(r"wait:(\d+)$", t)
+        if m and k >= 0:
+            g = int(m.group(1)) - p.base
+            if g in p.yields and not any(g in b for b in sched):
+                while len(sched) <= k:
+                    sched.append([])
+                sched[k].append(g)
+    return sched
 
 
 def sync_kind(kind):
@@ -467,7 +513,8 @@ def body(ctx, kinds=("a1t0s0", "a1t1s0", "a1t0s1", "a1t1s1"), n=None, profiles=N
     ctx.out.coverage["async_model_runs_compared"] = ctx.out.coverage.get("async_model_runs_compared", 0) + len(cov)
     # the poll-level model (Async.lean / AsyncSpec.lean): its predicted events per poll under this gate schedule, for the
     # kinds that run on the deterministic executor
-    det = [(p, r) for p, r in zip(progs, reals) if (not p.is_spawn()) or p.no_runtime() or nothing_fails(p)]
+    det = [(p, r) for p, r in zip(progs, reals) if ((not p.is_spawn()) or p.no_runtime() or nothing_fails(p)) and not getattr(p, "yields", None)]
+    det_y = [(p, r) for p, r in zip(progs, reals) if getattr(p, "yields", None)]
     apoll = k1.run_driver(["APOLL\t%s\t%s\t%s\t%s\t%s" % (p.pid, p.kind, r.structure, p.world_gated(),
                            "|".join(",".join(str(g) for g in b) for b in p.schedule) if p.schedule else "-") for p, r in det]) if det else []
     predicted = {p.pid: (o.split("\t", 1)[1] if "\t" in o else o) for (p, r), o in zip(det, apoll)}
@@ -491,6 +538,14 @@ def body(ctx, kinds=("a1t0s0", "a1t1s0", "a1t0s1", "a1t1s1"), n=None, profiles=N
         if len(f) == 2:
             got[f[0]] = f[1]
     ctx.evals += len(progs)
+    # programs with self-waking pending points: the model's schedule is the executor's plus "opened after the poll that met it"
+    if det_y:
+        apoll_y = k1.run_driver(["APOLL\t%s\t%s\t%s\t%s\t%s" % (p.pid, p.kind, r.structure, p.world_gated(),
+                                 "|".join(",".join(str(g) for g in b) for b in effective_schedule(p, got.get(p.pid, "MISSING\t"))))
+                                 for p, r in det_y])
+        for (p, r), o in zip(det_y, apoll_y):
+            predicted[p.pid] = o.split("\t", 1)[1] if "\t" in o else o
+        ctx.out.coverage["programs_with_self_waking_points"] = ctx.out.coverage.get("programs_with_self_waking_points", 0) + len(det_y)
     for p in progs:
         rl = got.get(p.pid, "MISSING\t")
         problems = judge(p, rl, spec[p.pid])
@@ -561,6 +616,14 @@ def body_panics(ctx, kinds=("a1t0s0", "a1t1s0", "a1t0s1", "a1t1s1"), n=None):
         return
     got = dict(l.split("\t", 1) for l in out.splitlines() if "\t" in l)
     ctx.evals += len(progs)
+    # programs with self-waking pending points: the model's schedule is the executor's plus "opened after the poll that met it"
+    if det_y:
+        apoll_y = k1.run_driver(["APOLL\t%s\t%s\t%s\t%s\t%s" % (p.pid, p.kind, r.structure, p.world_gated(),
+                                 "|".join(",".join(str(g) for g in b) for b in effective_schedule(p, got.get(p.pid, "MISSING\t"))))
+                                 for p, r in det_y])
+        for (p, r), o in zip(det_y, apoll_y):
+            predicted[p.pid] = o.split("\t", 1)[1] if "\t" in o else o
+        ctx.out.coverage["programs_with_self_waking_points"] = ctx.out.coverage.get("programs_with_self_waking_points", 0) + len(det_y)
     for p in progs:
         rl = got.get(p.pid, "MISSING\t")
         res = rl.split("\t")[0]
